@@ -153,6 +153,34 @@ func enumerate(visit func(idx int64, family string, nontrivial bool, mk func() I
 			}
 			emit("wkb-valid", false, mut(func(b []byte) []byte { return b }))
 			emit("hex-valid", false, hexmut(func(b []byte) []byte { return b }))
+			// the same structure with every rotation of the coordinate patterns (NaNs
+			// with payloads, infinities, signed zeros, subnormals in every position;
+			// for a point every (x, y) pair of patterns)
+			{
+				np := len(geomgen.BitPatterns)
+				nv := np
+				if s.Kind == geomgen.KPoint {
+					nv = np * np
+				}
+				for v := 1; v < nv; v++ {
+					v := v
+					mk := func() []byte {
+						g := buildGeom(s, v)
+						if s.Kind == geomgen.KPoint {
+							g = geom.Point{X: math.Float64frombits(geomgen.BitPatterns[v/np]), Y: math.Float64frombits(geomgen.BitPatterns[v%np])}
+						}
+						e, _, err := wkbref.Encode(g, func(int) bool { return little })
+						if err != nil {
+							report.Harness("%v", err)
+						}
+						return e
+					}
+					emit("wkb-valid-values", true, func() Input { return Input{Dec: "wkb", Data: mk()} })
+					if v%3 == 0 || s.Kind == geomgen.KPoint {
+						emit("hex-valid-values", true, func() Input { return Input{Dec: "hex", Data: []byte(stdhex.EncodeToString(mk()))} })
+					}
+				}
+			}
 			emit("hex-valid-upper", false, func() Input {
 				return Input{Dec: "hex", Data: []byte(strings.ToUpper(stdhex.EncodeToString(enc)))}
 			})
@@ -397,7 +425,18 @@ func enumerate(visit func(idx int64, family string, nontrivial bool, mk func() I
 	for _, doc := range []string{``, `null`, `[]`, `7`, `"x"`, `{}`, `{"type":"Point","coordinates":[1,2]}x`, `{"type":"Point","coordinates":[1e999,2]}`,
 		`{"type":"Point","coordinates":[1,2],"coordinates":[3]}`, `{"TYPE":"Point","Coordinates":[1,2]}`, `{"type":"Point","coordinates":[1,2,3]}`,
 		`{"type":"LineString","coordinates":[[1,2],[3]]}`, `{"type":"Polygon","coordinates":[[[1,2]],[[3,4,5]]]}`, `{"type":"MultiPolygon","coordinates":[[[[1,2]]],[[[3]]]]}`,
-		`{"type":"MultiPoint","coordinates":[[1,2],[]]}`, `{"type":"MultiLineString","coordinates":[[[1,2]],[[]]]}`} {
+		`{"type":"MultiPoint","coordinates":[[1,2],[]]}`, `{"type":"MultiLineString","coordinates":[[[1,2]],[[]]]}`,
+		// the other RFC 7946 object types, well formed (whatever the decoder makes
+		// of them must be a geometry it can encode again, or an error)
+		`{"type":"GeometryCollection","geometries":[{"type":"Point","coordinates":[1,2]}]}`,
+		`{"type":"GeometryCollection","geometries":[{"type":"Point","coordinates":[1,2]},{"type":"LineString","coordinates":[[1,2],[3,4]]}]}`,
+		`{"type":"GeometryCollection","geometries":[{"type":"GeometryCollection","geometries":[{"type":"Polygon","coordinates":[[[0,0],[1,0],[1,1],[0,0]]]}]},{"type":"MultiPoint","coordinates":[[5,6]]}]}`,
+		`{"type":"GeometryCollection","geometries":[]}`, `{"type":"GeometryCollection"}`, `{"type":"GeometryCollection","geometries":[null]}`, `{"type":"GeometryCollection","geometries":[{"type":"Point"}]}`,
+		`{"type":"GeometryCollection","coordinates":[1,2],"geometries":[{"type":"Point","coordinates":[1,2]}]}`,
+		`{"type":"Feature","geometry":{"type":"Point","coordinates":[1,2]},"properties":{}}`, `{"type":"Feature","geometry":null,"properties":null}`,
+		`{"type":"FeatureCollection","features":[{"type":"Feature","geometry":{"type":"LineString","coordinates":[[1,2],[3,4]]},"properties":{"a":1}}]}`,
+		`{"type":"Point","coordinates":[1,2],"bbox":[1,2,1,2]}`, `{"type":"Point","coordinates":[1,2],"crs":{"type":"name","properties":{"name":"EPSG:4326"}}}`,
+		`{"type":"point","coordinates":[1,2]}`, `{"type":"POINT","coordinates":[1,2]}`, `{"type":"MultiGeometry","geometries":[{"type":"Point","coordinates":[1,2]}]}`} {
 		doc := doc
 		emit("geojson-doc", true, func() Input { return Input{Dec: "geojson", Data: []byte(doc)} })
 	}
